@@ -2,6 +2,7 @@ import FV.Props.C03
 import FV.Props.C17Ser
 import FV.EmplaceImage
 import FV.SizeView
+import FV.ValWf
 /-! # C03, clause 3 — byte-exact image of portable values (see `C03_statement` in `Props/C03.lean`) -/
 namespace FV.Props
 open FV
@@ -139,4 +140,18 @@ theorem C03_enum_unsized_variant_image (tag : LenTy) (vs : List (List Ty)) (h : 
 
 /-- non-vacuity: `S1 { a: u32, b: FlatVec<u8,u16> }` with three bytes in `b` occupies 12 bytes (4 + 2 + 3, padded to 4) -/
 example : sizeSpec S1 (.ustruct [[1,0,0,0]] (.vecArr [[7],[8],[9]])) = 12 := by decide
+
+/-- **C03 + C02: what an emplacer produced is a well-typed, consistent value.** For every well-formed type and well-typed initialiser,
+on every aligned slot of at least `MIN_SIZE` bytes: if the emplacer reports `Ok`, the content read back through the accessors is a
+well-typed value of the type (`ValWF`: tag in range, arities, array lengths, capacities within the length type's range) in which every
+container reports `len ≤ capacity` and every string is valid UTF-8 (`Val.ok`). -/
+theorem C03_emplaced_content_well_typed (t : Ty) (h : t.WF) (i : Init) (hw : InitWT t i) (s : Slice)
+    (hal : s.addr % t.dict.align = 0) (hlen : t.dict.minSize ≤ s.len) :
+    ∃ o, emplaceU t i s = .ok o ∧ (o.res = .ok () → ∃ v, t.dict.walk ⟨s.addr, o.bytes⟩ = .ok v ∧ ValWF t v ∧ v.ok) := by
+  obtain ⟨o, ho, hl, hread⟩ := C03_emplace_reads_back t h i hw s hal hlen
+  refine ⟨o, ho, fun hres => ?_⟩
+  obtain ⟨hv, _, _, _⟩ := hread hres
+  obtain ⟨ha, hm, hu⟩ := validate_ok_iff.1 hv
+  obtain ⟨v, hwv⟩ := (Ty.walkLaw t h).total ⟨s.addr, o.bytes⟩ hm hu
+  exact ⟨v, hwv, Ty.wfLaw t _ v hu hwv, Ty.okLaw t _ v hu hwv⟩
 end FV.Props
